@@ -171,7 +171,7 @@ class Check:
         n = rnd.choice([6, 15, 40])
         world = W.gen_world(rnd, n, allow_kicks=True, allow_poses=False, magnitudes=rnd.choice(['nominal', 'unit', 'decades']))
         if rnd.random() < 0.5:
-            world['faults'] = W.gen_faults(rnd, world, ['glitch', 'scale', 'stuck', 'dup'], max_faults=3)
+            world['faults'] = W.gen_faults(rnd, world, ['glitch', 'scale', 'stuck', 'dup'] + (['nan'] if rnd.random() < 0.3 else []) + (['dropout'] if rnd.random() < 0.3 else []), max_faults=3)
         consumers = []
         for _ in range(rnd.randint(3, 6)):
             kind = rnd.choice(POOL)
@@ -219,6 +219,11 @@ class Check:
             viol.append({'component': t.kind.name, 'symptom': 'mutates-input', 'trigger': arch + ':' + (('param:' + str(mu['array']).split(':')[-1]) if str(mu['array']).startswith('param') else str(mu['array'])),
                          'step': mu['rows'][0] if mu['rows'] else None,
                          'detail': f"{arch} {t.kind.name} modified the caller's '{mu['array']}' buffer (rows {mu['rows']}) that it was handed on the shared bus"})
+        for t in pipe.tasks[:-1]:
+            if isinstance(t, K.StreamTask) and t.q_mutations:
+                j = t.q_mutations[0]
+                viol.append({'component': t.kind.name, 'symptom': 'mutates-input', 'trigger': 'stream:q', 'step': j,
+                             'detail': f"stream {t.kind.name}: the a-priori quaternion array passed to the update call at sample {j} (the caller's previous attitude) was modified in place; gyr={hist.gyr[j * t.stride]}"})
         for t in pipe.tasks[:-1]:
             stats['task_steps'][t.kind.name] = stats['task_steps'].get(t.kind.name, 0) + 1
         executed = sum(stats['calls'].values()) - sum(stats['rejected'].values())
